@@ -59,7 +59,7 @@ def instantiate_axioms(eng, formulas, rounds=1):
     """ground instances of the axioms of Phi, sqrt, pow, log, exp for the terms that occur.
     These are the *only* facts about those symbols that any proof uses (trusted base)."""
     from .tensor import Phi, Sqrt
-    names = ["Phi", "sqrt", "pow", "log", "exp", "lgamma", "erfc"]
+    names = ["Phi", "usqrt", "upow", "ulog", "uexp", "lgamma", "erfc", "xlogy"]
     if not getattr(eng, "use_axioms", True):
         return []
     facts = []
@@ -81,7 +81,7 @@ def instantiate_axioms(eng, formulas, rounds=1):
             if i != j:
                 facts.append(z3.Implies(allargs[i] < allargs[j], Phi(allargs[i]) < Phi(allargs[j])))
     # --- sqrt
-    sq = [t for t in found["sqrt"] if _ground(t)]
+    sq = [t for t in found["usqrt"] if _ground(t)]
     sargs = list({t.arg(0).get_id(): t.arg(0) for t in sq}.values())
     for a in sargs:
         facts.append(z3.Implies(a >= 0, z3.And(Sqrt(a) >= 0, Sqrt(a) * Sqrt(a) == a)))
@@ -91,7 +91,7 @@ def instantiate_axioms(eng, formulas, rounds=1):
                 facts.append(z3.Implies(z3.And(0 <= sargs[i], sargs[i] < sargs[j]), Sqrt(sargs[i]) < Sqrt(sargs[j])))
     # --- pow
     from .tensor import Pow
-    pw = [t for t in found["pow"] if _ground(t)]
+    pw = [t for t in found["upow"] if _ground(t)]
     for t in pw:
         x, y = t.arg(0), t.arg(1)
         facts.append(z3.Implies(y == 0, t == 1))
@@ -144,6 +144,36 @@ def congruence_facts(eng, formulas, hyps):
     return facts
 
 
+HEAVY = ("xlogy", "ulog", "usqrt", "lgamma", "uexp", "upow", "Phi")
+
+
+def application_hints(eng, hyps, goal, ax, budget_pairs=300):
+    """lemma hints: for pairs of applications of the same uninterpreted special function occurring in the goal,
+    prove the arguments equal (small separate queries) and hand the resulting equalities of the applications to the
+    main query.  Sound: each hint is itself proved under the same hypotheses."""
+    found = _apps([goal], list(HEAVY))
+    hints = []
+    pairs = 0
+    for nm in HEAVY:
+        terms = list({t.get_id(): t for t in found[nm] if _ground(t)}.values())
+        terms.sort(key=lambda t: len(t.sexpr()))
+        for a in range(len(terms)):
+            for b in range(a + 1, len(terms)):
+                if pairs >= budget_pairs:
+                    return hints
+                t1, t2 = terms[a], terms[b]
+                pairs += 1
+                s = z3.Solver()
+                s.set("timeout", 1500)
+                s.add(*hyps)
+                s.add(*ax)
+                s.add(*hints)
+                s.add(z3.Not(z3.And(*[t1.arg(k) == t2.arg(k) for k in range(t1.num_args())])))
+                if s.check() == z3.unsat:
+                    hints.append(t1 == t2)
+    return hints
+
+
 def discharge(eng, name, hyps, goal, meta=None, timeout_ms=None):
     """prove hyps => goal.  status: proved | refuted | unknown"""
     meta = meta or {}
@@ -161,7 +191,14 @@ def discharge(eng, name, hyps, goal, meta=None, timeout_ms=None):
     s.add(*ax)
     s.add(*cg)
     s.add(z3.Not(goal))
+    s.set("timeout", min(timeout_ms or Z3_TIMEOUT_MS, 4000))
     r = s.check()
+    if r == z3.unknown:
+        # second attempt with proved congruence hints for the special-function applications
+        hints = application_hints(eng, list(hyps), goal, ax + cg)
+        s.set("timeout", timeout_ms or Z3_TIMEOUT_MS)
+        s.add(*hints)
+        r = s.check()
     dt = time.time() - t0
     if r == z3.unsat:
         return Result(name, "proved", "z3", dt, meta=_meta_out(meta))
